@@ -138,8 +138,18 @@ fn main() {
         for t in &tabs {
             setup_sql.extend(t.alter_sqls());
         }
+        // a schema the engine refuses (possible once a proposed repair landed: keys to non-primary-key
+        // columns, column-order keys) is counted and skipped, not a harness failure
+        let mut refused = false;
         for s in &setup_sql {
-            must(&mut db, s);
+            if !exec(&mut db, s).is_ok() {
+                refused = true;
+                break;
+            }
+        }
+        if refused {
+            sum.count(&format!("history_setup_refused_{}", pname));
+            continue;
         }
         let schema_coq: Vec<String> = tabs.iter().map(|t| table_coq(&db, t)).collect();
         let mut all_sql: Vec<String> = setup_sql.clone();
@@ -195,6 +205,17 @@ fn main() {
                 None => {
                     break;
                 }
+            };
+            // what the query executor returns for the source of an INSERT..SELECT
+            let stmt = match stmt {
+                Stmt::InsertSelect { dst, src, simple, .. } => {
+                    let sel = match exec(&mut db, &select_sql(src, simple)) {
+                        Outcome::Rows(rs) => rs.iter().map(|x| x.iter().map(conv).collect()).collect(),
+                        _ => vec![],
+                    };
+                    Stmt::InsertSelect { dst, src, simple, sel }
+                }
+                s => s,
             };
             let sql = stmt.sql();
             sum.count(&format!("stmt_{}", stmt.kind()));
